@@ -25,7 +25,7 @@ RULE = ('process programs (sync/async steps, waits with resume values, continuat
 ASSUMPTIONS = ['steps depend only on persisted state by construction (trace and scripts live in persisted members / ctx / inputs)',
                'WorkChains waiting on futures are not checkpoint points (they cannot be saved)']
 REQUIRED = ['restores', 'kinds/process', 'kinds/outline', 'transport/pickle', 'crash_in_wait', 'multi_restore', 'traces_compared', 'ctx_compared',
-            'inputs/none', 'inputs/empty', 'inputs/given', 'outline_nodes/if', 'outline_nodes/while', 'elif_or_else_body_crash']
+            'inputs/none', 'inputs/empty', 'inputs/given', 'outline_nodes/if', 'outline_nodes/while', 'elif_or_else_body_crash', 'lost_work_restores', 'transport/mem-live', 'transport/pkfile-live']
 BOUNDS = {'quick': 'basic family + 12 random programs, 60 outlines, crash subsets <=2', 'thorough': '+150 random programs, 800 outlines, subsets <=3, persister/YAML transports'}
 
 
@@ -64,6 +64,10 @@ def gen_cases(tier, seed):
                 for cs in sets:
                     yield {'kind': 'process', 'name': name, 'program': prog, 'inputs': inputs, 'ctx': ctxprog, 'crash': cs,
                            'transport': rng.choice(transports)}
+                # checkpoints written by a persister; the writing instance runs on for 1-3 boundaries before the crash (lost work)
+                for cs in rng.sample(sets, min(len(sets), 6 if tier == 'quick' else 20)):
+                    yield {'kind': 'process', 'name': name, 'program': prog, 'inputs': inputs, 'ctx': ctxprog, 'crash': cs,
+                           'transport': rng.choice(['mem-live', 'pkfile-live']), 'lag': rng.randint(0, 3)}
     nout = 60 if tier == 'quick' else 800
     for i in range(nout):
         ast = outlines.random_ast(rng, rng.randint(1, 3), max_body=4)
@@ -78,6 +82,9 @@ def gen_cases(tier, seed):
             sets = rng.sample(sets, 25)
         for cs in sets:
             yield {'kind': 'outline', 'ast': ast, 'preds': preds, 'rets': rets, 'emit': i % 2 == 0, 'crash': cs, 'transport': rng.choice(transports)}
+        for cs in rng.sample(sets, min(len(sets), 6 if tier == 'quick' else 12)):
+            yield {'kind': 'outline', 'ast': ast, 'preds': preds, 'rets': rets, 'emit': i % 2 == 0, 'crash': cs,
+                   'transport': rng.choice(['mem-live', 'pkfile-live']), 'lag': rng.randint(0, 3)}
 
 
 def _transport(kind, workdir):
@@ -118,7 +125,7 @@ _REF = {}
 def run_case(case):
     V = judges.V
     obs = {'restores': 0, 'kinds': {case['kind']: 1}, 'transport': {case['transport']: 1}, 'crash_in_wait': 0, 'multi_restore': 0, 'traces_compared': 0,
-           'ctx_compared': 0, 'inputs': {}, 'outline_nodes': {}, 'elif_or_else_body_crash': 0}
+           'ctx_compared': 0, 'inputs': {}, 'outline_nodes': {}, 'elif_or_else_body_crash': 0, 'lost_work_restores': 0}
     workdir = tempfile.mkdtemp(prefix='c08-', dir=os.environ.get('PV_WORK') or None)
     try:
         if case['kind'] == 'process':
@@ -150,7 +157,12 @@ def run_case(case):
         ref = _REF[refkey]
         if ref.get('inconclusive'):
             return {'viol': [], 'obs': obs, 'inconclusive': 'reference:%s' % ref['inconclusive'], 'key': case, 'nontrivial': False}
-        r = persist.run_with_crashes(make, case['crash'], resume, transport=_transport(case['transport'], workdir))
+        if case['transport'].endswith('-live'):
+            pers = plumpy.InMemoryPersister() if case['transport'] == 'mem-live' else plumpy.PicklePersister(workdir)
+            r = persist.run_with_crashes(make, case['crash'], resume, persister=pers, lag=case['lag'])
+            obs['lost_work_restores'] = int(case['lag'] > 0 and r.get('restores', 0) > 0)
+        else:
+            r = persist.run_with_crashes(make, case['crash'], resume, transport=_transport(case['transport'], workdir))
     finally:
         shutil.rmtree(workdir, ignore_errors=True)
     if r.get('inconclusive'):
